@@ -40,8 +40,11 @@ RULE = ('programs of 4-40 statements, nesting depth <= 3, generated while execut
         '+-where, cardinality/empty/not_empty; the whole program is then run cleanly by the reference '
         '(programs on which it signals an error are discarded and counted). Non-trivial = at least one '
         'loop, one where clause, one relate and eight statements; distinct by hash of (population, text).')
-ASSUMPTIONS = ['the language rules listed in vf/oalsem.py; inexact integer division, negative modulo, use of '
+ASSUMPTIONS = ['the language rules listed in vf/oalsem.py: integer operands divide to the integer quotient truncated '
+               'towards zero; division by zero, modulo with a negative or zero operand, use of '
                'empty or deleted handles, repeated relate and failed unrelate are outside the compared domain',
+               'select any / select one yield the first match in model order (the order C09 fixes for the '
+               'queries the interpreter is built on)',
                'the loop variable of for each and variables first assigned in an inner block are not read '
                'after that block']
 LEVEL_TEXT = ('Random exploration (differential execution against a reference evaluator): every generated '
